@@ -216,11 +216,16 @@ def scripted_cases(draw, prof):
     return dict(scn=scn, script=oc, search=search)
 
 
+ADV_EXCLUDE = ()
+
+
 def plan(tier):
-    return [("runs", 16), ("scripted", 16)]
+    return [("runs", 16), ("scripted", 16), ("advopts", 16)]
 
 
 def run_part(res, part, tier, seed, shard, nshards):
+    if part == "advopts":
+        return runlevel.adv_sweep(res, PROFILE, tier, seed, shard, nshards, body, exclude=ADV_EXCLUDE)
     if part == "runs":
         runlevel.sweep(res, PROFILE if tier == "quick" else PROFILE_T, N[tier], seed, shard, nshards, body)
     else:
@@ -242,7 +247,7 @@ def _simp_scripted(c):
 
 def minimise(part, tier, sig, case, seed):
     mr = 12 if tier == "quick" else 40
-    if part == "runs":
+    if part in ("runs", "advopts"):
         return runlevel.field_minimise(case, sig, body, max_runs=mr)
     return runlevel.field_minimise(case, sig, body_scripted, max_runs=mr, simplifier=_simp_scripted)
 
